@@ -495,7 +495,7 @@ __attribute__((used)) const char *__asan_default_options(void)
 {
 	return "exitcode=77:detect_leaks=0:halt_on_error=0:handle_segv=0:"
 	       "handle_sigbus=0:handle_sigfpe=0:handle_abort=0:handle_sigill=0:"
-	       "allocator_may_return_null=1:detect_stack_use_after_return=0:"
+	       "allocator_may_return_null=1:detect_stack_use_after_return=0:suppress_equal_pcs=0:"
 	       "print_summary=0";
 }
 
@@ -634,6 +634,60 @@ void sim_lib_restart(void)
 	for (int i = 0; i < lib.nsnap; i++)
 		raw_copy((void *)lib.snap[i].lo, lib.copy[i],
 			 lib.snap[i].hi - lib.snap[i].lo);
+}
+
+/*
+ * Locate, without knowing any symbol name, the unique aligned 32-bit word in
+ * the library's writable data that increases by exactly one per tick() call.
+ * Returns NULL when there is no such word or more than one.
+ */
+volatile uint32_t *sim_lib_find_counter(void (*tick)(void))
+{
+	unsigned char *snap[3][MAX_RANGES];
+	volatile uint32_t *found = NULL;
+	int nfound = 0;
+	sim_lib_restart();
+	for (int k = 0; k < 3; k++) {
+		if (k)
+			tick();
+		for (int i = 0; i < lib.nsnap; i++) {
+			size_t n = lib.snap[i].hi - lib.snap[i].lo;
+			snap[k][i] = malloc(n);
+			raw_copy(snap[k][i], (void *)lib.snap[i].lo, n);
+		}
+	}
+	for (int i = 0; i < lib.nsnap; i++) {
+		size_t n = lib.snap[i].hi - lib.snap[i].lo;
+		uintptr_t base = lib.snap[i].lo;
+		for (size_t off = (4 - (base & 3)) & 3; off + 4 <= n; off += 4) {
+			uint32_t a, b, c;
+			memcpy(&a, snap[0][i] + off, 4);
+			memcpy(&b, snap[1][i] + off, 4);
+			memcpy(&c, snap[2][i] + off, 4);
+			if (b == a + 1 && c == b + 1) {
+				found = (volatile uint32_t *)(base + off);
+				nfound++;
+			}
+		}
+	}
+	for (int k = 0; k < 3; k++)
+		for (int i = 0; i < lib.nsnap; i++)
+			free(snap[k][i]);
+	sim_lib_restart();
+	return nfound == 1 ? found : NULL;
+}
+
+/* FNV hash of the library's writable data (compare two states of the library) */
+uint64_t sim_lib_data_hash(void)
+{
+	uint64_t h = 0xcbf29ce484222325ull;
+	for (int i = 0; i < lib.nsnap; i++) {
+		volatile unsigned char *p = (void *)lib.snap[i].lo;
+		size_t n = lib.snap[i].hi - lib.snap[i].lo;
+		for (size_t k = 0; k < n; k++)
+			h = (h ^ p[k]) * 0x100000001b3ull;
+	}
+	return h;
 }
 
 bool sim_in_lib_text(const void *pc)
@@ -853,12 +907,14 @@ void simrt_run_end(void) __attribute__((weak));
 
 static void run_begin(uint64_t index)
 {
+	sim_lib_restart();	/* the first call takes the snapshot */
 	if (!harness_inited) {
 		harness_inited = true;
-		if (sim_harness.init)
+		if (sim_harness.init) {
 			sim_harness.init();
+			sim_lib_restart();
+		}
 	}
-	sim_lib_restart();
 	tape_clear(&R.rec);
 	tape_push_seg(&R.rec);
 	R.src_seg = 0;
